@@ -1676,8 +1676,9 @@ def h_fields(ctx):
         sl = st.value.slice
         if sl.lower is not None or sl.upper is None or isinstance(sl.upper, ast.Constant):
             continue
-        if not (isinstance(st.targets[0], ast.Subscript) and chain(st.targets[0].value) == "unprotected"):
-            continue
+        tb = st.targets[0].value if isinstance(st.targets[0], ast.Subscript) else None
+        if not (isinstance(tb, ast.Name) and any(isinstance(w, ast.Assign) and isinstance(w.value, ast.Dict) for w in writes_to_name(un.node, tb.id))):
+            continue  # not a store into the map of unprotected header fields
         X = st.value.value
         if not isinstance(X, ast.Name):
             continue
